@@ -327,17 +327,30 @@ Definition pobj_of (o : Z * option (list Z) * list Z) : pobjective :=
   if 0 <=? t then PObj (Z.to_nat t)
   else PMulti (match st with None => SSum | Some ws => SWeightedSum ws end)
               (map (fun i => if i <? 0 then INested else IObj (Z.to_nat i)) inner).
-(* observations of a list of solution pairs under every path *)
+(* observations of the solutions `sols` (state vectors) under every path: for every pair (i, j) and path the orders [ab; ba; aa]
+   (or [-1; code] when the path fails), and for every path the fitness vector of every solution ([[-1; code]] when it fails) *)
+Definition observe_all (paths : list (list (bool * nat))) (sols : list (list Z)) (pairs : list (nat * nat)) (c0 : gctx)
+  : list (list Z) * list (list Z) :=
+  let cs := map (follow c0) paths in
+  (flat_map (fun ij : nat * nat =>
+     let sa := nth (fst ij) sols [] in let sb := nth (snd ij) sols [] in
+     map (fun rc => match rc with
+                    | GOk c => [ord_z (ctx_total_order c sa sb); ord_z (ctx_total_order c sb sa); ord_z (ctx_total_order c sa sa)]
+                    | GErr e => [-1; Z.of_nat e]
+                    end) cs) pairs,
+   flat_map (fun rc => match rc with GOk c => map (ctx_fitness c) sols | GErr e => [[-1; Z.of_nat e]] end) cs).
+Definition res_z2 {A} (f : A -> list (list Z) * list (list Z)) (r : gres A) : list (list Z) * list (list Z) :=
+  match r with GOk a => f a | GErr e => ([[-1; Z.of_nat e]], []) end.
+Definition pair_of (p : Z * Z) : nat * nat := (Z.to_nat (fst p), Z.to_nat (snd p)).
 Definition run_reader (objs : option (list (Z * option (list Z) * list Z))) (has_value : bool) (paths : list (list (Z * Z)))
-                      (pairs : list (list Z * list Z)) : list (list Z) :=
-  res_z (fun c0 => flat_map (fun ab => observe_paths (map path_of paths) (fst ab) (snd ab) c0) pairs)
-        (read_goal (option_map (map pobj_of) objs) has_value).
+                      (sols : list (list Z)) (pairs : list (Z * Z)) : list (list Z) * list (list Z) :=
+  res_z2 (observe_all (map path_of paths) sols (map pair_of pairs)) (read_goal (option_map (map pobj_of) objs) has_value).
 (* the estimates of the main context and of every context of `paths` for moves given by the per-objective estimate vectors *)
 Definition run_reader_est (objs : option (list (Z * option (list Z) * list Z))) (has_value : bool) (paths : list (list (Z * Z)))
                           (moves : list (list Z)) : list (list Z) :=
   res_z (fun c0 => flat_map (fun e => flat_map (fun p => res_z (fun c => [est_z (ctx_estimate c e)]) (follow c0 (path_of p))) paths) moves)
         (read_goal (option_map (map pobj_of) objs) has_value).
-(* scientific readers: observations of solution pairs (state vectors (unassigned, tours, distance)) under every path *)
-Definition run_sci (prefer_min_tours : bool) (paths : list (list (Z * Z))) (pairs : list (list Z * list Z)) : list (list Z) :=
-  res_z (fun c0 => flat_map (fun ab => observe_paths (map path_of paths) (fst ab) (snd ab) c0) pairs)
-        (sci_goal_context prefer_min_tours).
+(* scientific readers: observations of the solutions (state vectors (unassigned, tours, distance)) under every path *)
+Definition run_sci (prefer_min_tours : bool) (paths : list (list (Z * Z))) (sols : list (list Z)) (pairs : list (Z * Z))
+  : list (list Z) * list (list Z) :=
+  res_z2 (observe_all (map path_of paths) sols (map pair_of pairs)) (sci_goal_context prefer_min_tours).
